@@ -17,7 +17,7 @@ MIN_CASES_PER_SHARD = 200
 CASE_TIMEOUT = 20
 RULE = ("one case = a trace of 1..10 points (planar dyadic / planar real at scales 2^-6..2^20 and offsets to 1e7 / "
         "latitude-longitude, optionally with repeated points and a time component) and a spacing from 1/1000 of to larger "
-        "than the longest gap (incl. spacings dividing a gap exactly); non-trivial = at least one gap was subdivided; "
+        "than the longest gap (incl. spacings dividing a gap exactly, and spacings that make a gap a hair above/below a whole number of steps: dist/dd = k +- 1e-12..1e-3); non-trivial = at least one gap was subdivided; "
         "distinct = hash of (trace, spacing)")
 ANCHORS = [("leuvenmapmatching/util/dist_euclidean.py", "interpolate_path"),
            ("leuvenmapmatching/util/dist_latlon.py", "interpolate_path")]
